@@ -103,11 +103,14 @@ theorem good_arms : ∀ a ∈ arms, ∀ c r o, a c r = some o → Good c r o := 
     split at h
     · simp at h; subst h
       refine ⟨⟨_, rfl, ?_⟩, by simp, by simp, by simp⟩
-      simp [List.append_assoc, eatIf2_append, splitAt2_append]
+      simp [scanBlock_append]
     · simp at h
   · unfold armDigit at h
     split at h
-    · simp at h; subst h; exact good_lexNumber c r
+    · split at h
+      · simp at h; subst h
+        exact ⟨⟨_, rfl, List.takeWhile_append_dropWhile⟩, by simp, by simp, by simp⟩
+      · simp at h; subst h; exact good_lexNumber c r
     · simp at h
   · unfold armSign at h
     split at h
